@@ -708,11 +708,15 @@ def _short(x):
 
 def match_doc(doc, model, tl=None):
     """Compare a Doc's expectation with a decoded typelib model. -> list of differences"""
+    return match_model(doc.expect(), model)
+
+
+def match_model(exp, model):
+    """Compare an expected model (dict with namespace/nsversion/.../entries) with a decoded one."""
     out = []
     _MODEL[0] = model
-    exp = doc.expect()
     for k in ('namespace', 'nsversion', 'shared_library', 'c_prefix'):
-        if exp[k] != model.get(k):
+        if k in exp and exp[k] != model.get(k):
             out.append('header.%s: expected %r, decoded %r' % (k, exp[k], model.get(k)))
     if sorted(exp['dependencies']) != sorted(model.get('dependencies', [])):
         out.append('header.dependencies: expected %r, decoded %r' % (exp['dependencies'], model.get('dependencies')))
